@@ -115,6 +115,14 @@ def main():
             table[e] = table[e - 1] @ g
             table[-e] = ~table[e]
         order = Ref.order if (Ref.order is not None and Ref.order < 4000 and not rbase) else 0
+        # class groups declare the class number; the built-in generator (trivial unless Delta = 1 mod 8) generates a subgroup whose
+        # order divides it: exponents are reduced modulo the order of g observed in the table (g^declared = identity is still demanded)
+        actual = next((e for e in range(1, E + 1) if table[e] == Ref.identity), 0)
+        if actual == 1:
+            evs.append(dict(blank, kind='cyc', fam=fam, coord=coord, op='order', order=0, res=0))      # trivial generator: nothing to exponentiate
+            continue
+        if actual and not rbase and fam.startswith('Cl') and Ref.order is not None and Ref.order % actual == 0:
+            order = actual
         if rbase and len({keyof(pt) for pt in table.values() if pt != Ref.identity}) < 2 * E:
             continue        # g^r has small order: exponents would be ambiguous
         lookup = {}
